@@ -262,6 +262,12 @@ class TargetGen:
             return o[:rng.randint(0, len(o))]      # possibly zero-width selector
         if r < 0.3:
             return o + rng.choice(self.offs)
+        if r < 0.4 and len(o) > 0:
+            return ~o                              # raw value is negative before masking
+        if r < 0.5:
+            return (o - rng.choice(self.offs)).as_unsigned()
+        if r < 0.58 and len(o) > 0:
+            return o.as_signed().as_unsigned()
         return o
 
     def target(self, depth):
